@@ -249,9 +249,9 @@ class Cross_3d(CrossBasic):
         u = _args[0]
         v = _args[1]
 
-        return Tuple(u[1]*v[2] - u[2]*v[1],
-                     u[2]*v[0] - u[0]*v[2],
-                     u[0]*v[1] - u[1]*v[0])
+        return ImmutableDenseMatrix([[u[1]*v[2] - u[2]*v[1]],
+                                     [u[2]*v[0] - u[0]*v[2]],
+                                     [u[0]*v[1] - u[1]*v[0]]])
 # ...
 
 
